@@ -17,7 +17,7 @@ RULE = ("histories of 2-8 copies onto the same destination with fresh content ea
         "Plus SIGKILL before/after every mutating system call of the overwrite step: the old content must still exist under the "
         "original or a backup name. distinct_nontrivial = distinct (driver, name class, mode, pre-existing backup set class, step "
         "index | kill site)")
-ASSUMPTIONS = ["backup numbers with leading zeros and numbers above u64 are not generated (the statement does not define them)",
+ASSUMPTIONS = ["backup numbers with leading zeros and numbers above u64 are not generated (the statement does not define them); with 2^64-1 present no larger number exists, so a refusal (non-zero exit, nothing lost) is what is demanded",
                "kill points are system-call boundaries; rename is atomic in the kernel"]
 
 NAMES = {
@@ -30,7 +30,7 @@ NAMES = {
     "tilde": ["x~", "~y~", "n.~z~"],
     "long": ["L" * 250, "M" * 251, "N" * 252, "O" * 254, "P" * 255],
 }
-BSETS = {"none": [], "one": [1], "gap": [1, 3, 7], "large": [1, 2 ** 62], "many": list(range(1, 13))}
+BSETS = {"none": [], "one": [1], "gap": [1, 3, 7], "large": [1, 2 ** 62], "many": list(range(1, 13)), "u64max": [5, 2 ** 64 - 1]}
 
 BAK = re.compile(rb"^(.*)\.~([1-9][0-9]*)~$", re.S)
 
